@@ -202,5 +202,13 @@ def run(ctx):
                        'PublicKey.parse uses a validating secp256k1 parser [%s]' % be,
                        p.get_function('keys.PublicKey.parse').where)
             same_term(ob, r['bytes'][0], b, 'bytes(PrivateKey) is the 32-byte scalar [%s]' % be, finit.where)
+    # ------------------------------------------------------------------ CKDpriv's failure cases (shared with C18)
+    from . import C18
+    sub = ctx.__class__('C01', ctx.tier, ctx.p, ctx.seed)
+    C18.run(sub)
+    for o in sub.obligations:
+        if o.rule in ('C18.CKDPRIV', 'C18.MASTER'):
+            o.rule = 'C01.INVALID(=%s)' % o.rule
+            ctx.obligations.append(o)
     # ------------------------------------------------------------------ transitivity: derive_path is a fold of ckd
     C17.check_fold(ctx, 'C01.FOLD')
